@@ -85,6 +85,9 @@ pub struct Env {
     pub label: &'static str,
     /// outputs spent earlier on the chain of `tip`
     pub spent: Vec<OutRef>,
+    /// key written on the tracking slip of an NFT group held by the attacker (zero-amount slips
+    /// are not in the reference ledger)
+    pub nft_uuid: Option<PK>,
 }
 
 pub fn spent_on_chain(b: &mut Builder, tip: &Hash) -> Vec<OutRef> {
@@ -166,6 +169,48 @@ pub fn catalogue(env: &mut Env, rng: &mut Rng) -> Vec<Artefact> {
         let signer = env.b.actors.iter().find(|a| a.pk == e.owner).cloned().unwrap();
         let tx = build_tx(&signer, &[e.clone()], &[(signer.pk, e.amount.saturating_sub(1))], ts, &[]);
         out.push(Artefact { edit: "expired-input", tx, pool_gates: true });
+    }
+    // expired by exactly one block: created in block tip - gp, the block whose outputs the next
+    // block's rebroadcast section collects
+    if next_id > gp + 1 {
+        let edge = next_id - gp - 1;
+        if let Some(e) = ledger.utxo.values().find(|o| o.block_id == edge && o.slip_type != TYPE_BOUND && o.amount > 0 && env.b.actors.iter().any(|a| a.pk == o.owner)) {
+            let signer = env.b.actors.iter().find(|a| a.pk == e.owner).cloned().unwrap();
+            let tx = build_tx(&signer, &[e.clone()], &[(signer.pk, e.amount.saturating_sub(1))], ts, &[]);
+            out.push(Artefact { edit: "expired-input-by-one-block", tx, pool_gates: true });
+        }
+    }
+    // an NFT group [Bound, Normal, Bound] held by the attacker: the send moves the group on and adds
+    // a Normal output worth the free-form (unbacked) amount written on the first bound slip
+    {
+        let all: Vec<OutRef> = ledger.utxo.values().cloned().collect();
+        for o2 in all.iter().filter(|o| o.owner == attacker.pk && o.slip_type == 0 && o.slip_index >= 1) {
+            let find = |idx: u8| all.iter().find(|x| x.block_id == o2.block_id && x.tx_ordinal == o2.tx_ordinal && x.slip_index == idx && x.slip_type == TYPE_BOUND);
+            let s3 = env.nft_uuid.map(|uuid| OutRef { owner: uuid, amount: 0, block_id: o2.block_id, tx_ordinal: o2.tx_ordinal, slip_index: o2.slip_index + 1, slip_type: TYPE_BOUND });
+            if let (Some(s1), Some(s3)) = (find(o2.slip_index - 1), s3.as_ref()) {
+                if s1.amount > 1 {
+                    use saito_core::core::consensus::slip::SlipType;
+                    let mut tx = Transaction::default();
+                    tx.transaction_type = TransactionType::Bound;
+                    tx.timestamp = ts;
+                    for i in [s1, o2, s3] {
+                        tx.add_from_slip(i.to_input());
+                    }
+                    let mut t1 = out_slip(&s1.owner, s1.amount);
+                    t1.slip_type = SlipType::Bound;
+                    let t2 = out_slip(&attacker.pk, o2.amount.saturating_sub(5));
+                    let mut t3 = out_slip(&s3.owner, 0);
+                    t3.slip_type = SlipType::Bound;
+                    tx.add_to_slip(t1);
+                    tx.add_to_slip(t2);
+                    tx.add_to_slip(t3);
+                    tx.add_to_slip(out_slip(&attacker.pk, s1.amount));
+                    tx.sign(&attacker.sk);
+                    out.push(Artefact { edit: "nft-send-pays-out-bound-slip-amount", tx, pool_gates: true });
+                    break;
+                }
+            }
+        }
     }
     // the same input twice inside one transaction (doubles the apparent input value)
     let tx = build_tx(&attacker, &[ao.clone(), ao.clone()], &[(attacker.pk, (ao.amount * 2).saturating_sub(10))], ts, &[]);
@@ -450,30 +495,34 @@ async fn judge_env(env: &mut Env, rng: &mut Rng, rep: &mut Report, build: &str) 
     {
         let attacker = env.b.actors[2].clone();
         let outs = ledger.safe_owned_by(&attacker.pk, gp);
+        // plain, and with the second spend hidden behind a leading zero-value input of the signer
+        let zero = OutRef { owner: attacker.pk, amount: 0, block_id: 0, tx_ordinal: 0, slip_index: 0, slip_type: 0 };
+        for (variant, lead) in [("same-input-in-two-txs", None), ("same-input-in-two-txs-behind-zero-value-input", Some(zero))] {
         if let Some(o) = outs.first() {
             let t1 = build_tx(&attacker, &[o.clone()], &[(attacker.pk, o.amount.saturating_sub(10))], tip_ts + 5, &[]);
-            let t2 = build_tx(&attacker, &[o.clone()], &[(env.b.actors[3].pk, o.amount.saturating_sub(20))], tip_ts + 6, &[]);
+            let second_inputs: Vec<OutRef> = lead.iter().cloned().chain(std::iter::once(o.clone())).collect();
+            let t2 = build_tx(&attacker, &second_inputs, &[(env.b.actors[3].pk, o.amount.saturating_sub(20))], tip_ts + 6, &[]);
             let producer = env.b.producer_at(&env.tip).await;
             if let Ok(mut block) = producer.create_block(env.tip, tip_ts + 2 * env.b.params.heartbeat, vec![t1], None).await {
                 block.transactions.push(t2);
                 rebuild_header(&producer, &mut block).await;
                 let bytes = block_bytes(&block);
                 rep.eval();
-                rep.count("edits.same-input-in-two-txs");
-                rep.nontrivial(&format!("{}|same-input-in-two-txs|block", env.label));
+                rep.count(&format!("edits.{}", variant));
+                rep.nontrivial(&format!("{}|{}|block", env.label, variant));
                 let before = sut.tip().await;
                 let r = crate::panics::catch_async(sut.add_bytes(&bytes)).await;
                 match r {
                     Err(p) => rep.violation(
-                        &format!("C01|edit=same-input-in-two-txs|gate=block|panic|{}", p.signature()),
+                        &format!("C01|edit={}|gate=block|panic|{}", variant, p.signature()),
                         &format!("[{}] add_block panicked: {}", env.label, p.message),
                         json!({"block_hex": hex::encode(&bytes)}),
                     ),
                     Ok(_) => {
                         if sut.tip().await != before {
                             rep.violation(
-                                "C01|edit=same-input-in-two-txs|gate=block",
-                                &format!("[{}] a block spending one output in two transactions was accepted", env.label),
+                                &format!("C01|edit={}|gate=block", variant),
+                                &format!("[{}] a block spending one output in two transactions ({}) was accepted", env.label, variant),
                                 json!({"block_hex": hex::encode(&bytes)}),
                             );
                         } else {
@@ -483,6 +532,11 @@ async fn judge_env(env: &mut Env, rng: &mut Rng, rep: &mut Report, build: &str) 
                 }
             }
             env.b.keep_producer(env.tip, producer);
+        }
+        // a panic or an accepted block leaves the replica unusable for the next variant
+        if sut.tip().await.1 != env.tip {
+            sut = env.b.fresh_replica(&env.tip, &victim).await;
+        }
         }
     }
 }
@@ -519,6 +573,9 @@ async fn wrapped_chain(b: &mut Builder, rng: &mut Rng, len: usize) -> Hash {
 }
 
 pub async fn run(ctx: &Ctx, rep: &mut Report) {
+    if std::env::var("SVH_DEBUG").is_ok() {
+        crate::logsink::install_stderr(log::LevelFilter::Warn);
+    }
     let mut rng = ctx.rng();
     let n = 4;
     let rounds = ctx.scale(6, 60) / ctx.shards.max(1) + 1;
@@ -529,7 +586,7 @@ pub async fn run(ctx: &Ctx, rep: &mut Report) {
             let g = b.genesis;
             let tip = b.grow(&mut rng, &g, 2 + (round as usize % 3), 2, 25).await;
             let spent = spent_on_chain(&mut b, &tip);
-            let mut env = Env { b, tip, label: "fresh", spent };
+            let mut env = Env { b, tip, label: "fresh", spent, nft_uuid: None };
             judge_env(&mut env, &mut rng, rep, &ctx.build).await;
             rep.count("contexts.fresh");
         }
@@ -542,7 +599,7 @@ pub async fn run(ctx: &Ctx, rep: &mut Report) {
             let _loser = b.grow(&mut rng, &trunk, 2, 2, 30).await;
             let winner = b.grow(&mut rng, &trunk, 3, 2, 35).await;
             let spent = spent_on_chain(&mut b, &winner);
-            let mut env = Env { b, tip: winner, label: "after-reorg", spent };
+            let mut env = Env { b, tip: winner, label: "after-reorg", spent, nft_uuid: None };
             judge_env(&mut env, &mut rng, rep, &ctx.build).await;
             rep.count("contexts.after-reorg");
         }
@@ -555,9 +612,55 @@ pub async fn run(ctx: &Ctx, rep: &mut Report) {
                 continue;
             }
             let spent = spent_on_chain(&mut b, &tip);
-            let mut env = Env { b, tip, label: "window-wrapped", spent };
+            let mut env = Env { b, tip, label: "window-wrapped", spent, nft_uuid: None };
             judge_env(&mut env, &mut rng, rep, &ctx.build).await;
             rep.count("contexts.window-wrapped");
+        }
+        // E. an NFT group held by the attacker, first bound slip labelled with a large amount
+        {
+            use saito_core::core::consensus::slip::SlipType;
+            let p = Params::with_gp(20);
+            let mut b = Builder::new(&p, n, &default_issuance(n)).await;
+            let g = b.genesis;
+            let t1 = b.grow(&mut rng, &g, 2, 1, 25).await;
+            let ledger = b.store.ledger(&t1);
+            let creator_of_nft = b.actors[2].clone();
+            let attacker = b.actors[2].clone();
+            if let Some(o) = ledger.safe_owned_by(&creator_of_nft.pk, p.gp).into_iter().find(|o| o.amount > 50_000) {
+                let mut tx = Transaction::default();
+                tx.transaction_type = TransactionType::Bound;
+                tx.timestamp = b.store.get(&t1).ts + 9;
+                tx.add_from_slip(o.to_input());
+                let mut s1 = out_slip(&creator_of_nft.pk, 777_000_000);
+                s1.slip_type = SlipType::Bound;
+                let s2 = out_slip(&attacker.pk, 20_000);
+                let mut uuid = [0u8; 33];
+                uuid[0..8].copy_from_slice(&o.block_id.to_be_bytes());
+                uuid[8..16].copy_from_slice(&o.tx_ordinal.to_be_bytes());
+                uuid[16] = o.slip_index;
+                let mut s3 = out_slip(&uuid, 0);
+                s3.slip_type = SlipType::Bound;
+                tx.add_to_slip(s1);
+                tx.add_to_slip(s2);
+                tx.add_to_slip(s3);
+                tx.add_to_slip(out_slip(&creator_of_nft.pk, o.amount - 20_000 - 30));
+                tx.sign(&creator_of_nft.sk);
+                let id = b.store.get(&t1).id + 1;
+                let spec = BlockSpec { gap: 2 * p.heartbeat, txs: vec![tx], with_gt: id % 2 == 0, gt_miner: 0 };
+                match b.extend(&mut rng, &t1, &spec).await {
+                    Ok(t2) => {
+                        let tip = b.grow(&mut rng, &t2, 1, 1, 25).await;
+                        let spent = spent_on_chain(&mut b, &tip);
+                        let mut env = Env { b, tip, label: "nft-held", spent, nft_uuid: Some(uuid) };
+                        judge_env(&mut env, &mut rng, rep, &ctx.build).await;
+                        rep.count("contexts.nft-held");
+                    }
+                    Err(e) => {
+                        rep.count("contexts.nft-not-built");
+                        rep.note(&format!("nft context not built: {}", e));
+                    }
+                }
+            }
         }
         // D. staking on
         {
@@ -568,7 +671,7 @@ pub async fn run(ctx: &Ctx, rep: &mut Report) {
             let g = b.genesis;
             let tip = b.grow(&mut rng, &g, 3, 2, 25).await;
             let spent = spent_on_chain(&mut b, &tip);
-            let mut env = Env { b, tip, label: "staking", spent };
+            let mut env = Env { b, tip, label: "staking", spent, nft_uuid: None };
             judge_env(&mut env, &mut rng, rep, &ctx.build).await;
             rep.count("contexts.staking");
         }
